@@ -36,6 +36,7 @@ EXPLANATION = (
     "interpolation, solid angles.")
 EXPLANATION += (' R-C19-4: an attribute that several methods set to different values (the ansatz derivative of the element type) is per-type state: every method that calls a reader of it calls the matching writer on every path before (CFG dominance).')
 EXPLANATION += (' R-C19-5: Meshmapper.process addresses source and target points with the same complete coordinate key list of the mesh; a list cut by the data-dependent `dimensions` property is a violation.')
+EXPLANATION += (" R-C19-8: the frame whose columns the Gradient3D workers address by position is the projection self._obj[['x','y','z',value]] by name.")
 EXPLANATION += (" R-C19-6: the gradient module contains no comparison against an absolute numeric tolerance (float literal in a comparison, isclose/allclose): the operators are homogeneous in the length unit. R-C19-7: no frame whose index level order was fixed by the code (reorder_levels with literal names / swaplevel, followed through locals and helper methods) is re-indexed with the caller's index, because pandas aligns MultiIndex tuples by position.")
 ASSUMPTIONS = [
     "pandas .loc/.isin/get_indexer are label based, numpy subscripts and .iloc are positional",
@@ -241,6 +242,7 @@ def run(ctx):
     ctx.attempt(_r5_mapping_coords)
     ctx.attempt(_r6_scale)
     ctx.attempt(_r7_level_order)
+    ctx.attempt(_r8_column_layout)
 
 
 MESH_MODS = ("pylife.mesh.gradient", "pylife.mesh.surface", "pylife.mesh.hotspot", "pylife.mesh.meshsignal")
@@ -775,6 +777,61 @@ def _r2_jacobian(ctx):
                     ctx.holds(comp, cs[0], "Jacobian and ansatz derivatives are evaluated at the same reference point")
                 else:
                     ctx.violated(comp, cs[0], "Jacobian and ansatz derivatives are evaluated at different reference points")
+
+
+# ----------------------------------------------------------------------------- R-C19-8
+
+def _r8_column_layout(ctx):
+    """The per-element workers of Gradient3D address the columns of the frame they are given by position (columns 0..2 are the
+    coordinates, column 3 the value, 4..6 receive the gradient).  That is right only for a frame whose columns were selected by
+    name in exactly that order; handing them the caller's frame as it is makes the result depend on which other columns the
+    mesh carries and in which order."""
+    prog = ctx.prog
+    ctx.rule("R-C19-8", floor=1, what="frames addressed by column position are projected onto [x, y, z, value] by name first")
+    ci = prog.cls("pylife.mesh.gradient:Gradient3D")
+    g = prog.lookup_method(ci, "gradient_of")
+    positional = []
+    for name, defs in ci.methods.items():
+        for n_ in ast.walk(defs[-1].node):
+            if isinstance(n_, ast.Subscript) and isinstance(n_.value, ast.Attribute) and n_.value.attr == "iloc" and \
+                    isinstance(n_.slice, ast.Tuple) and len(n_.slice.elts) == 2 and \
+                    (isinstance(n_.slice.elts[1], ast.Slice) or isinstance(const_value(n_.slice.elts[1]), int)):
+                positional.append((defs[-1], n_))
+    if not positional:
+        raise AnalysisError("Gradient3D: no positional column access found (the rule has nothing to protect)")
+    ap = [c for c in calls_in(g.node) if isinstance(c.func, ast.Attribute) and c.func.attr == "apply" and c.args and
+          is_self_attr(c.args[0])]
+    if len(ap) != 1:
+        raise AnalysisError("gradient_of: the per-element apply call was not found")
+    e = ap[0].func.value
+    for _ in range(12):
+        if isinstance(e, ast.Call) and isinstance(e.func, ast.Attribute):
+            e = e.func.value                       # .groupby(...), .reorder_levels(...), .sort_index(...), .copy() ...
+        elif isinstance(e, ast.Name):
+            ds = [s_.value for s_ in walk_function(g.node) if isinstance(s_, ast.Assign) and
+                  any(isinstance(t_, ast.Name) and t_.id == e.id for t_ in s_.targets)]
+            if len(ds) != 1:
+                raise AnalysisError("gradient_of: the frame handed to the workers has several definitions")
+            e = ds[0]
+        else:
+            break
+    vparam = [q for q in g.params if q != "self"][0]
+    if is_self_attr(e, "_obj"):
+        ctx.violated(g, ap[0], "gradient_of hands the mesh frame to the per-element workers with all its columns in the caller's "
+                     "order; the workers read the coordinates as columns 0..2 and the value as column 3 (%d positional accesses), "
+                     "so any extra column or another column order silently changes the gradient" % len(positional),
+                     text="unprojected frame")
+        return
+    if isinstance(e, ast.Subscript) and is_self_attr(e.value, "_obj") and isinstance(e.slice, (ast.List, ast.Tuple)):
+        cols = [const_value(x_) if not (isinstance(x_, ast.Name) and x_.id == vparam) else "<value>" for x_ in e.slice.elts]
+        if cols == ["x", "y", "z", "<value>"]:
+            ctx.holds(g, ap[0], "workers receive self._obj[['x', 'y', 'z', value]]: positions 0..3 are the coordinates and the value "
+                      "(%d positional accesses in the workers)" % len(positional))
+        else:
+            ctx.violated(g, ap[0], "the frame handed to the workers has the columns %s; they read columns 0..2 as x, y, z and "
+                         "column 3 as the value" % cols, text="projected column order")
+        return
+    raise AnalysisError("gradient_of: how the frame for the workers is built was not understood")
 
 
 # ----------------------------------------------------------------------------- R-C19-3
